@@ -12,6 +12,8 @@
   swapeq   : `a == b` -> `b == a`, `a != b` -> `b != a`
   unnest   : `if c: ...return/raise/continue/break else: REST` -> else removed, REST follows
   earlycontinue : `for ...: if c: BODY` -> `for ...: if not c: continue; BODY`
+  positional : keyword arguments of calls that resolve to repository functions are passed by position where the order allows
+  keywords : positional arguments of such calls are passed by keyword
 
 usage: python -m selftest.transforms [reformat|rename|pad|all]   (exit 2 when a verdict changes)
 """
@@ -300,7 +302,87 @@ class EarlyContinue(ast.NodeTransformer):
         return node
 
 
-def transform(src, kind):
+def call_tables(root):
+    """(relpath, lineno, col) -> parameter names of the callee in positional order (self dropped), for calls whose candidate
+    callees (precise, else by name) all agree on that order and take no *args."""
+    from sa.model import FunctionInfo
+    prog = Program(root=root)
+    cg = CallGraph(prog)
+    table = {}
+    for f in prog.functions.values():
+        for c in ast.walk(f.node):
+            if not isinstance(c, ast.Call) or any(isinstance(a, ast.Starred) for a in c.args) or any(k.arg is None for k in c.keywords):
+                continue
+            try:
+                res = cg.resolve_call(c, f)
+            except Exception:
+                continue
+            prec = [t for (k, t) in res if k == "precise"]
+            cands = prec or [t for (k, t) in res if k in ("name", "weak")]
+            cands = [t for t in cands if isinstance(t, FunctionInfo)]
+            if not cands or len(cands) > 4:
+                continue
+            orders = set()
+            for t in cands:
+                a = t.node.args
+                if a.vararg is not None or a.posonlyargs:
+                    orders.add(None)
+                    continue
+                ps = [x.arg for x in a.args]
+                bound = t.cls is not None and not t.is_static and (isinstance(c.func, ast.Attribute) or t.name in ("__init__", "__new__"))
+                if t.cls is not None and not t.is_static and not bound:
+                    orders.add(None)
+                    continue
+                if bound:
+                    ps = ps[1:]
+                orders.add(tuple(ps))
+            if len(orders) == 1 and None not in orders:
+                table[(f.module.relpath, c.lineno, c.col_offset)] = list(orders.pop())
+    return table
+
+
+class Positional(ast.NodeTransformer):
+    def __init__(self, rel, table):
+        self.rel, self.table = rel, table
+
+    def visit_Call(self, node):
+        self.generic_visit(node)
+        ps = self.table.get((self.rel, node.lineno, node.col_offset))
+        if ps is None or not node.keywords:
+            return node
+        n = len(node.args)
+        kws = {k.arg: k.value for k in node.keywords}
+        take = []
+        for pname in ps[n:]:
+            if pname in kws:
+                take.append(pname)
+            else:
+                break
+        if not take:
+            return node
+        node.args = list(node.args) + [kws[pn] for pn in take]
+        node.keywords = [k for k in node.keywords if k.arg not in take]
+        return node
+
+
+class Keywords(ast.NodeTransformer):
+    def __init__(self, rel, table):
+        self.rel, self.table = rel, table
+
+    def visit_Call(self, node):
+        self.generic_visit(node)
+        ps = self.table.get((self.rel, node.lineno, node.col_offset))
+        if ps is None or not node.args or len(node.args) > len(ps):
+            return node
+        names = ps[:len(node.args)]
+        if set(names) & {k.arg for k in node.keywords}:
+            return node
+        node.keywords = [ast.keyword(arg=nm, value=v) for nm, v in zip(names, node.args)] + list(node.keywords)
+        node.args = []
+        return node
+
+
+def transform(src, kind, rel=None, table=None):
     import warnings
     with warnings.catch_warnings():
         warnings.simplefilter("ignore")
@@ -327,6 +409,10 @@ def transform(src, kind):
         tree = AndSplitter().visit(tree)
     elif kind == "extend":
         tree = Extender().visit(tree)
+    elif kind == "positional":
+        tree = Positional(rel, table).visit(tree)
+    elif kind == "keywords":
+        tree = Keywords(rel, table).visit(tree)
     ast.fix_missing_locations(tree)
     out = ast.unparse(tree)
     import warnings
@@ -358,16 +444,17 @@ def main(argv):
     import warnings
     warnings.simplefilter("ignore")
     root = os.environ.get("HED_REPO", "/repo")
-    kinds = ["reformat", "rename", "pad", "hoist", "invert", "nest", "splitand", "extend", "retlocal", "swapeq", "unnest", "earlycontinue"] if not argv or argv[0] == "all" else argv
+    kinds = ["reformat", "rename", "pad", "hoist", "invert", "nest", "splitand", "extend", "retlocal", "swapeq", "unnest", "earlycontinue", "positional", "keywords"] if not argv or argv[0] == "all" else argv
     srcs = read_sources(root)
     base = verdicts(root, {})
     bad = 0
+    table = call_tables(root) if set(kinds) & {"positional", "keywords"} else None
     for kind in kinds:
         t0 = time.time()
         ov = {}
         for rel, src in srcs.items():
             try:
-                ov[rel] = transform(src, kind)
+                ov[rel] = transform(src, kind, rel, table)
             except SyntaxError:
                 ov[rel] = src
         res = verdicts(root, ov)
